@@ -200,6 +200,34 @@ func sweep(r *hx.Rand, agent string, cmd int, delay int, cfg map[string]int, buf
 	return out
 }
 
+// backPressure: the requester leaves the control responses on its port for a while (all
+// Control buffers hold one message), so the agent's Control outgoing buffer fills up while
+// further verbs - in particular asynchronous ones - are queued behind.
+func backPressure(r *hx.Rand, agent string, directed bool) json.RawMessage {
+	in := input{Agent: agent, Buf: 1, Delays: []int{3}, Cfg: map[string]int{"latency": 2, "width": 1}}
+	in.Ops = []opIn{{At: 0, Addr: 0x1000}, {At: 2, Ctl: true, Cmd: 2}, {At: 3, Ctl: true, Cmd: 2}}
+	at := uint64(6)
+	if directed {
+		for _, c := range []int{1, 1, 0} {
+			in.Ops = append(in.Ops, opIn{At: at, Ctl: true, Cmd: c})
+			at++
+		}
+		in.CtlHold = []uint64{3, 60}
+	} else {
+		for i := 0; i < 2+r.Intn(4); i++ {
+			in.Ops = append(in.Ops, opIn{At: at, Ctl: true, Cmd: []int{1, 1, 0, 2, 3, 6, 4}[r.Intn(7)]})
+			at += uint64(r.Intn(3))
+			if r.Chance(1, 3) {
+				in.Ops = append(in.Ops, opIn{At: at, Addr: uint64(r.Intn(4)) * 4096, Write: r.Bool()})
+			}
+		}
+		in.CtlHold = []uint64{uint64(2 + r.Intn(4)), uint64(30 + r.Intn(50))}
+	}
+	end := in.CtlHold[1] + 40
+	in.Ops = append(in.Ops, opIn{At: end, Ctl: true, Cmd: 2, Wait: true}, opIn{At: end + 4, Addr: 0x2000})
+	return hx.J(in)
+}
+
 func sweeps(r *hx.Rand, tier string) []json.RawMessage {
 	var out []json.RawMessage
 	for _, a := range Agents {
@@ -258,6 +286,12 @@ func gen(r *hx.Rand, tier string) []json.RawMessage {
 		out = append(out, hx.J(in))
 	}
 	out = append(out, sweeps(r.Fork(), tier)...)
+	for _, a := range Agents {
+		out = append(out, backPressure(r.Fork(), a, true))
+		for i := 0; i < per/3; i++ {
+			out = append(out, backPressure(r.Fork(), a, false))
+		}
+	}
 	// exact tick-level tie of the ideal controller's control path
 	for i := 0; i < 2*per; i++ {
 		rr := r.Fork()
@@ -312,6 +346,7 @@ func init() {
 			"acknowledgements in 2/3 of the phases; lower-module responses are delayed by a random cyclic pattern of 1..70 cycles; port buffers 1-6; random " +
 			"latencies/widths/MSHR/geometry. Offset sweeps for every agent: a burst of three requests (two coalescing) and ONE verb issued at every cycle " +
 			"of the burst's lifetime (Reset at every offset; Pause and Drain at every third offset in the quick tier, every offset in the thorough tier), then Enable and new traffic - " +
+			"Control back-pressure for every agent: all Control buffers of size 1 and a requester that leaves the responses on its port for 30-80 cycles while Drain/Pause/Enable/Reset/unknown verbs queue up. " +
 			"so each verb is handled in every internal phase (queued / in pipeline / outstanding below / lower response delivered / response staged / leaving). The confirmed write-back Pause->Flush history is always included. Non-trivial: >=3 control responses, >=3 data " +
 			"requests delivered and >=2 data responses. Plus exact tick-level cases of the ideal memory controller (same scripts, Control buffers of 1-3): " +
 			"every tick's inputs and outputs are compared with Ideal.ideal_tick.",
